@@ -135,11 +135,68 @@ theorem readRecord_good {vs : List Val} {c : Nat} (hl : LenOk vs c) {st : Rd} (g
   · rw [if_neg hb]
     exact scan_good hl n hn _ st g (by omega) (by omega)
 
+/-- the check of `unpackRawCsg` on a written column: the first record's own length is its encoded length -/
+theorem recLen_encCol (vs : List Val) (h0 : 0 < vs.length) : recLen (encCol vs) = .ok (encTLV vs[0]).length := by
+  cases vs with
+  | nil => simp at h0
+  | cons v r =>
+    rw [encCol_cons]
+    simpa using recLen_encTLV_any v (encCol r)
+
+/-- a hint that does not enable the shortcut is kept as it is -/
+theorem checkedLen_of_not_usable (buf : Bytes) (c : Nat) (hc : ¬ (c > 0 ∧ c ≠ inconsistent)) : checkedLen buf c = c := by
+  unfold checkedLen; rw [if_neg hc]
+
+/-- a usable hint that is the length of the first record passes the check -/
+theorem checkedLen_of_first_eq (vs : List Val) (c : Nat) (h0 : 0 < vs.length) (h : (encTLV vs[0]).length = c) :
+    checkedLen (encCol vs) c = c := by
+  unfold checkedLen
+  by_cases hc : c > 0 ∧ c ≠ inconsistent
+  · rw [if_pos hc, recLen_encCol vs h0]; simp [h]
+  · rw [if_neg hc]
+
+/-- a usable hint that is NOT the length of the first record is dropped: the reader falls back to the scan -/
+theorem checkedLen_of_first_ne (vs : List Val) (c : Nat) (hc : c > 0 ∧ c ≠ inconsistent) (h0 : 0 < vs.length)
+    (h : (encTLV vs[0]).length ≠ c) : checkedLen (encCol vs) c = inconsistent := by
+  unfold checkedLen
+  rw [if_pos hc, recLen_encCol vs h0]; simp [h]
+
+/-- what the callers know: the shortcut is off, or every record has the hinted length -/
+theorem checkedLen_ok (vs : List Val) (c : Nat) (h0 : 0 < vs.length)
+    (h : ¬ (c > 0 ∧ c ≠ inconsistent) ∨ ∀ v ∈ vs, (encTLV v).length = c) : checkedLen (encCol vs) c = c := by
+  rcases h with h | h
+  · exact checkedLen_of_not_usable _ _ h
+  · exact checkedLen_of_first_eq vs c h0 (h _ (List.getElem_mem h0))
+
+/-- a hint for which `getCurrentRecordLength` is right at every record passes the check of `unpackRawCsg` -/
+theorem checkedLen_of_lenOk {vs : List Val} {c : Nat} (hl : LenOk vs c) (h0 : 0 < vs.length) :
+    checkedLen (encCol vs) c = c := by
+  by_cases hc : c > 0 ∧ c ≠ inconsistent
+  · have hlen := hl 0 h0
+    unfold curRecLen at hlen
+    rw [if_pos hc] at hlen
+    exact checkedLen_of_first_eq vs c h0 (by cases hlen; rfl)
+  · exact checkedLen_of_not_usable _ _ hc
+
 theorem init_good {vs : List Val} {c : Nat} (hl : LenOk vs c) (h0 : 0 < vs.length) :
     ∃ st, Rd.init (encCol vs) c = .ok st ∧ Good vs c st := by
+  have hck := checkedLen_of_lenOk hl h0
   have hlen := hl 0 h0
   rw [offs_zero] at hlen
   unfold Rd.init
+  simp only [hck]
+  rw [hlen]
+  exact ⟨_, rfl, ⟨rfl, rfl, h0, by simp [offs_zero], by simp [h0]⟩⟩
+
+/-- a usable hint that disagrees with the first record: the reader starts in scan mode -/
+theorem init_good_fallback {vs : List Val} {c : Nat} (hc : c > 0 ∧ c ≠ inconsistent) (hwf : ∀ v ∈ vs, wf v)
+    (h0 : 0 < vs.length) (h : (encTLV vs[0]).length ≠ c) :
+    ∃ st, Rd.init (encCol vs) c = .ok st ∧ Good vs inconsistent st := by
+  have hl : LenOk vs inconsistent := lenOk_scan vs inconsistent (by simp) hwf
+  have hlen := hl 0 h0
+  rw [offs_zero] at hlen
+  unfold Rd.init
+  simp only [checkedLen_of_first_ne vs c hc h0 h]
   rw [hlen]
   exact ⟨_, rfl, ⟨rfl, rfl, h0, by simp [offs_zero], by simp [h0]⟩⟩
 
